@@ -92,3 +92,27 @@ def uninstall():
     _mon.free_tool_id(TOOL)
   except ValueError:
     pass
+
+
+def ensure(targets, callback):
+  """Like install(), but additive and persistent: code objects already hooked stay hooked.
+
+  Toggling local events between executions makes CPython re-instrument the code
+  objects, after which a line may be reported twice; keeping them installed
+  keeps LINE events identical from one execution to the next.
+  """
+  try:
+    _mon.use_tool_id(TOOL, 'vf')
+    _mon.register_callback(TOOL, _mon.events.LINE, _dispatch)
+  except ValueError:
+    pass
+  have = set(_active['codes'])
+  seen = set()
+  for t in targets:
+    for co in code_objects(t, seen):
+      if co not in have:
+        _mon.set_local_events(TOOL, co, _mon.events.LINE)
+        _active['codes'].append(co)
+        have.add(co)
+  _active['cb'] = callback
+  return _active['codes']
